@@ -274,7 +274,10 @@ func (p *PacketOut) MarshalBinary() (data []byte, err error) {
 
 func (p *PacketOut) UnmarshalBinary(data []byte) error {
 	err := p.Header.UnmarshalBinary(data)
-	n := p.Header.Len()
+	if err != nil {
+		return err
+	}
+	n := int(p.Header.Len())
 
 	p.BufferId = binary.BigEndian.Uint32(data[n:])
 	n += 4
@@ -285,15 +288,20 @@ func (p *PacketOut) UnmarshalBinary(data []byte) error {
 
 	n += 6 // for pad
 
-	for n < (n + p.ActionsLen) {
+	end := n + int(p.ActionsLen)
+	for n < end {
 		a, err := DecodeAction(data[n:])
 		if err != nil {
 			return err
 		}
+		if a.Len() == 0 {
+			return errors.New("The action list contains an action of size 0.")
+		}
 		p.Actions = append(p.Actions, a)
-		n += a.Len()
+		n += int(a.Len())
 	}
 
+	p.Data = new(util.Buffer)
 	err = p.Data.UnmarshalBinary(data[n:])
 	return err
 }
